@@ -881,10 +881,11 @@ where
                 // When min_delta == 0 there is nothing to do: last_value is
                 // unchanged and no bytes are consumed from the bit reader.
                 if min_delta != 0 {
-                    let total = min_delta.wrapping_mul(mini_block_to_skip as i64);
-                    let step = T::T::from_i64(total)
-                        .ok_or_else(|| general_err!("delta*n overflow in skip"))?;
-                    self.last_value = self.last_value.wrapping_add(&step);
+                    // the same wrapping arithmetic in the physical type as `get`
+                    // (at most one mini block of additions)
+                    for _ in 0..mini_block_to_skip {
+                        self.last_value = self.last_value.wrapping_add(&self.min_delta);
+                    }
                 }
                 // bit_width=0 payloads occupy zero bytes; no bit_reader advancement needed.
             } else {
